@@ -136,6 +136,17 @@ func runC02(h *Harness) {
 			resps = append(resps, nil)
 		}
 	}
+	// answers are not always a few hundred bytes: in a third of the runs every responder's answers carry bulk
+	bulk := 0
+	if h.Idx%3 == 2 {
+		bulk = []int{5000, 20000, 70000}[(h.Idx/3)%3]
+		for _, r := range resps {
+			if r != nil {
+				r.Bulk = bulk
+			}
+		}
+	}
+	sc["bulk"] = bulk
 	serial := big.NewInt(0x5151)
 	// a sixth of the random runs present a certificate whose authority key identifier names a key no certificate of
 	// the chain has: whether its issuer can be found at all is up to the code, but no verdict may come out of nothing
@@ -539,6 +550,22 @@ func runC14(h *Harness) {
 				// because last[key] still points at the previous authentic fetch (or nothing)
 				if strict && (hs.Err == nil || isRevokedErr(hs.Err)) && last[key] == nil {
 					h.Violation("C14.failed-query-decides", "failed-query", "read %d: the only responder failed (%s) but the strict handshake returned %s", i, rsp.State, v)
+				}
+				// a failed query while the last authentic answer is past its lifetime: that answer must not be what decides
+				// (strict: no answer => deny; lenient: no answer => OCSP does not reject)
+				if f := last[key]; f != nil && now > f.t+L {
+					stale := "accept"
+					if f.status == rRevoked {
+						stale = "revoked"
+					}
+					none := map[bool]string{true: "error", false: "accept"}[strict]
+					got := v
+					if strings.HasPrefix(got, "error(") {
+						got = "error"
+					}
+					if got != none && got == stale {
+						h.Violation("C14.lifetime-exceeded", "stale-served-on-outage", "read %d at t=%v: every responder failed (%s) and the last authentic answer (%s, fetched at t=%v) was %v past its lifetime %v, yet the verdict is %s — the expired answer decided (strict=%v; history %v)", i, now, rsp.State, f.status, f.t, now-f.t-L, L, v, strict, hist)
+					}
 				}
 			}
 			hist = append(hist, fmt.Sprintf("t=%v fetch(%s):%s", now.Round(time.Second), rsp.State, v))
